@@ -37,7 +37,8 @@ impl IoError {
     pub fn from_raw_os_error(e: i32) -> (r: IoError) ensures r == IoError::Os(e) { unimplemented!() }
     #[verifier::external_body]
     pub fn raw_os_error(&self) -> (r: Option<i32>)
-        ensures r == (match *self { IoError::Os(e) => Some(e), IoError::Other => None })
+        ensures r == (match *self { IoError::Os(e) => Some(e), IoError::Other => None }),
+            r is Some ==> r->Some_0 != i32::MIN   // assumed: A-ERRNO (an OS error number is never i32::MIN)
     { unimplemented!() }
 }
 
@@ -189,6 +190,13 @@ pub struct VhostUserMsgHeader<R: Req> { pub request: u32, pub flags: u32, pub si
 pub open spec fn hdr_valid_spec<R: Req>(h: VhostUserMsgHeader<R>) -> bool {
     R::spec_try_from(h.request) is Some && h.size <= 4096 && (h.flags & 3) == 1 && (h.flags & !0xfu32) == 0
 }
+pub proof fn lemma_flag_consts()
+    ensures 1u32 & 3 == 1, 9u32 & 3 == 1, 5u32 & 3 == 1, 1u32 & 4 == 0, 9u32 & 4 == 0, 5u32 & 4 == 4, 1u32 & 8 == 0, 9u32 & 8 == 8, 5u32 & 8 == 0,
+        1u32 & !0xfu32 == 0, 9u32 & !0xfu32 == 0, 5u32 & !0xfu32 == 0
+{
+    assert(1u32 & 3 == 1 && 9u32 & 3 == 1 && 5u32 & 3 == 1 && 1u32 & 4 == 0 && 9u32 & 4 == 0 && 5u32 & 4 == 4 && 1u32 & 8 == 0 && 9u32 & 8 == 8 && 5u32 & 8 == 0
+        && 1u32 & !0xfu32 == 0 && 9u32 & !0xfu32 == 0 && 5u32 & !0xfu32 == 0) by (bit_vector);
+}
 pub open spec fn is_reply_for_spec<R: Req>(h: VhostUserMsgHeader<R>, req: VhostUserMsgHeader<R>) -> bool {
     R::spec_try_from(h.request) is Some && h.request == req.request && (h.flags & 4) != 0 && (req.flags & 4) == 0
 }
@@ -218,7 +226,8 @@ impl<R: Req> VhostUserMsgHeader<R> {
     #[verifier::external_body]
     pub fn set_need_reply(&mut self, need_reply: bool)
         ensures final(self).request == old(self).request, final(self).size == old(self).size,
-            final(self).flags == (if need_reply { old(self).flags | 8 } else { old(self).flags & !8u32 })
+            final(self).flags == (if need_reply { old(self).flags | 8 } else { old(self).flags & !8u32 }),
+            old(self).flags == 1 ==> final(self).flags == (if need_reply { 9u32 } else { 1u32 })   // proved-by: c01_hdr_accessors
     { unimplemented!() }
     #[verifier::external_body]
     pub fn is_reply_for(&self, req: &VhostUserMsgHeader<R>) -> (r: bool) ensures r == is_reply_for_spec(*self, *req) { unimplemented!() }
